@@ -1,6 +1,7 @@
 """./check configuration for C04 (see verif_props.py)."""
 
-PROP = {'module': 'GolibsVerif.Theorems.C04',
+PROP = {'technique': "Lean accepted-language and round-trip theorems (position-wise reading of the 72-byte name, uniqueness of netip's decimal spelling), refutation by witness for the 4in6 case; differential tie",
+ 'module': 'GolibsVerif.Theorems.C04',
  'namespace': 'GolibsVerif.C04',
  'rule': 'addresses (random, single non-zero byte at every position, 4in6, bad lengths) encoded and decoded in four spellings; ARPA names '
          "from a label grammar and near-canonical mutations of real PTR names (leading zeros, '+', 4/5 labels, 31/33 nibbles, two-char "
